@@ -1114,6 +1114,17 @@ class DecoderLayout:
             if isinstance(t, ast.Name) and isinstance(v, ast.Name) and v.id in self.cursors:
                 self.cursors[t.id] = self.cursors[v.id]
                 return
+            # piece = rest[a:a+w]  (a window of constant width w, cut out to be tested for its length and read from its start): a name for
+            # the position a; `len(piece) < k` with k <= w is then the test `len(rest) - a < k`
+            if isinstance(t, ast.Name) and isinstance(v, ast.Subscript) and isinstance(v.slice, ast.Slice) and v.slice.upper is not None \
+                    and v.slice.step is None and isinstance(v.value, ast.Name) and (v.value.id in self.cursors or v.value.id == self.pkt) \
+                    and t.id not in self.cursors:
+                c = self.cursor_of(v)
+                if c is not None and c[2] is not None and c[1].syms == c[2].syms and c[2].c - c[1].c >= 1:
+                    self.cursors[t.id] = c[1]
+                    self.windows = getattr(self, "windows", {})
+                    self.windows[t.id] = c[2].c - c[1].c
+                    return
             # rest = rest[k:]
             if isinstance(t, ast.Name) and isinstance(v, ast.Subscript) and isinstance(v.slice, ast.Slice) and v.slice.upper is None \
                     and isinstance(v.value, ast.Name) and self.cursor_of(v) is not None:
@@ -1268,8 +1279,15 @@ class DecoderLayout:
             if rej is None:
                 raise AnalysisError("decoder of %s: raise under a test that is not a length test (%s)" % (self.cls.name, U(t)))
             T = self.lin(rej[1]).add(rej[2])
+            w_ = getattr(self, "windows", {}).get(rej[0])
+            if w_ is not None and T.syms:
+                raise AnalysisError("decoder of %s: length test %s on a window of width %d" % (self.cls.name, U(t), w_))
+            txt = U(t)
+            if w_ is not None and T.c + 1 > w_:
+                # more is asked of the window than it can ever hold: every input is refused
+                T, txt = Lin(1 << 28), "%s (a window %d bytes wide: always)" % (txt, w_)
             self.rejects = getattr(self, "rejects", [])
-            self.rejects.append({"cursor": self.cursors[rej[0]], "T": T, "node": s, "text": U(t)})
+            self.rejects.append({"cursor": self.cursors[rej[0]], "T": T, "node": s, "text": txt})
             return
         if isinstance(s, ast.If):
             g = U(s.test)
